@@ -368,8 +368,17 @@ fn run_case(c: &SpawnCase, root: &std::path::Path, rep: &mut CaseReport) -> Resu
         }
     }
     sc::verif::install();
+    // Inside spawn the parent may wait for the child only after the child reported a failure over
+    // the sync pipe. When every step is expected to succeed no wait belongs there at all: such a
+    // call is answered with ECHILD instead of being executed, so that a spawn that waits for a
+    // running child (which may itself be waiting for the caller) cannot hang the harness.
+    if expect_err.is_none() && !read_fault {
+        rules.push(Rule { nr: Some(sc::nr::WAIT4), nth: None, action: Action::ForceRet(sc::verif::neg_errno(libc::ECHILD)), times: sc::verif::GUARDED_FOREVER });
+    }
     sc::verif::plan(rules);
+    sc::verif::log_begin();
     let result = no_panic("Command::spawn", || cmd.spawn());
+    let spawn_log = sc::verif::log_end();
     sc::verif::clear_plan();
     let any_closed = c.closed.iter().any(|&b| b);
     if unsafe { libc::getpid() } != parent_pid {
@@ -389,6 +398,34 @@ fn run_case(c: &SpawnCase, root: &std::path::Path, rep: &mut CaseReport) -> Resu
             return Err(f);
         }
     };
+
+    // parent-side call order: a wait4 before the sync pipe delivered a failure report (a read that
+    // returned data) or failed for good means spawn blocks on a child that is still setting up or
+    // already running the requested program
+    {
+        let mut reported = false;
+        for call in &spawn_log {
+            if call.nr == sc::nr::FORK || call.nr == sc::nr::CLONE {
+                reported = false;
+            }
+            if call.nr == sc::nr::READ {
+                let r = call.ret as isize;
+                if r > 0 || (r < 0 && r != -(libc::EINTR as isize)) {
+                    reported = true;
+                }
+            }
+            if call.nr == sc::nr::WAIT4 && !reported {
+                unsafe {
+                    libc::close(mp[0]);
+                    libc::close(mp[1]);
+                }
+                if let Ok(mut ch) = result {
+                    let _ = ch.wait();
+                }
+                return Err(Failure::new("spawn|waits for the child before it reported a failure", format!("inside spawn the parent called wait4 although the sync pipe had delivered no failure report yet (fault {:?}): on success the child is then running the requested program and spawn blocks for its whole lifetime", c.fault)));
+            }
+        }
+    }
 
     let mut judge = |result: Result<tiny_std::process::Child, tiny_std::Error>, rep: &mut CaseReport| -> Result<(), Failure> {
         match (result, &expect_err) {
